@@ -132,8 +132,10 @@ Theorem C19_timeout_retx_calls : forall id k p2 n, call_ok (CkRetryRetx k p2 n) 
 Proof. exact timeout_retx_calls. Qed.
 
 (* "a cancelled caller context's error": Publish (QoS 1, QoS 2 both phases), Subscribe, Unsubscribe,
-   Ping, Connect of BaseClient and RetryClient.Ping with or without ResponseTimeout, interrupted by
-   their context, return an error in which errors.Is finds ctx.Err() *)
+   Ping, Connect of BaseClient, RetryClient.Ping with or without ResponseTimeout, KeepAlive, and
+   ReconnectClient.Connect given up before a first connection (after any history of failed attempts,
+   whose errors only go into the text), ended by their context, return an error in which errors.Is
+   finds ctx.Err() - and, by C19_built_is_iff_leaf, no other sentinel *)
 Theorem C19_ctx_error_found : forall id ck ce, ctx_call ck = true ->
   errors_is (call_error id ck (ESent ce)) (ESent ce) = RTrue.
 Proof. exact ctx_error_found. Qed.
